@@ -50,6 +50,20 @@ Theorem C08_intersect_wf_any : forall l l2, wf (intersect l l2).
 Proof. exact intersect_wf. Qed.
 Print Assumptions C08_intersect_wf_any.
 
+(* histories over several live graphs: an operation may take another live graph as its
+   argument and writes one slot; every graph of the pool stays well-formed ... *)
+Theorem C08_pool_ops_preserve_wf : forall pops p,
+  Forall wf p -> Forall pop_wf pops -> Forall wf (fold_left pool_step pops p).
+Proof. exact pool_ops_preserve_wf. Qed.
+Print Assumptions C08_pool_ops_preserve_wf.
+
+(* ... and a step touches no graph other than the one it writes (the frame the
+   correspondence check holds the real code to: lists must not share storage) *)
+Theorem C08_pool_step_frame : forall p po j,
+  j <> po_dst po -> nth j (pool_step p po) empty_nl = nth j p empty_nl.
+Proof. exact pool_step_frame. Qed.
+Print Assumptions C08_pool_step_frame.
+
 (* ---- non-vacuity: a non-trivial well-formed list and operation sequence ---------- *)
 Definition nd (i : string) : node :=
   {| n_id := i; n_type := 0; n_name := ""; n_version := ""; n_file_name := ""; n_url_home := "";
@@ -90,5 +104,24 @@ Proof.
   split; [apply wf_dec_sound; vm_compute; reflexivity|]. split.
   - unfold ex_ops. repeat (apply Forall_cons || apply Forall_nil); simpl; try exact I; try lia;
       apply wf_dec_sound; vm_compute; reflexivity.
+  - vm_compute. reflexivity.
+Qed.
+
+(* a pool history: relate ex_l2 under "a" of ex_l, remove "d" from ex_l2, add ex_l to ex_l2 *)
+Definition ex_pops : list pop :=
+  [ mk_pop 0 (Some 1%nat) (OpRelateList empty_nl "a" 5) 0;
+    mk_pop 1 None (OpRemove ["d"]) 1;
+    mk_pop 1 (Some 0%nat) (OpAdd empty_nl) 1;
+    mk_pop 0 (Some 1%nat) (OpUnion empty_nl) 2 ].
+
+Definition ex_pool : list nodelist := [ex_l; ex_l2; empty_nl].
+Definition ex_sizes : list nat := [4; 4; 4]%nat.
+
+Example C08_pool_nonvacuous :
+  Forall wf ex_pool /\ Forall pop_wf ex_pops /\
+  map (fun l => length (nl_nodes l)) (fold_left pool_step ex_pops ex_pool) = ex_sizes.
+Proof.
+  split; [unfold ex_pool; repeat (apply Forall_cons || apply Forall_nil); apply wf_dec_sound; vm_compute; reflexivity|]. split.
+  - unfold ex_pops. repeat (apply Forall_cons || apply Forall_nil); unfold pop_wf; simpl; try exact I; intros l2 H; exact H.
   - vm_compute. reflexivity.
 Qed.
